@@ -48,8 +48,7 @@ theorem jacobian_shape (f : Array E → Array E) (point : Array E) (delta : E) (
       let xi ← aget x.2.1 i
       let state ← aset x.2.1 i (xi + delta)
       let fnew := f state
-      let xi' ← aget state i
-      let state' ← aset state i (xi' - delta)
+      let state' ← aset state i xi
       let diff ← Vec.sub fnew (f point)
       let col ← Vec.sdiv diff delta
       let jac ← Mat.setCol x.1 i col
@@ -72,7 +71,7 @@ theorem jacobian_shape (f : Array E → Array E) (point : Array E) (delta : E) (
       obtain ⟨col, hc1, hc2⟩ := mapM_divM_ok _ delta hdiv
       obtain ⟨jac', hj1, hj2⟩ := setCol_spec hI (col := k) col (by rw [hc2, hd2]) hk
       refine ⟨(jac', (state.setIfInBounds k (state[k] + delta)).setIfInBounds k
-          ((state.setIfInBounds k (state[k] + delta))[k] - delta), tr ++ [state.setIfInBounds k (state[k] + delta)]), ?_, ?_⟩
+          state[k], tr ++ [state.setIfInBounds k (state[k] + delta)]), ?_, ?_⟩
       · simp only [aget_ok hk', aset_ok _ hk', aget_ok hk2, aset_ok _ hk2, hd1, hc1, hj1, bind, Except.bind, pure, Except.pure]
       · exact ⟨⟨_, hj2⟩, by simp [hs], by simp [ht]⟩)
   obtain ⟨jac, state, tr⟩ := r
